@@ -99,6 +99,17 @@ InvC12 ==
                                = StripTrace([i \in 1..Len(e.out.data.trace) |-> IF e.out.data.trace[i].k = "exec" THEN [e.out.data.trace[i] EXCEPT !.g = 0] ELSE e.out.data.trace[i]]))
               => Report("C12", SameOrder(m.data.trace, e.out.data.trace)))
 
+\* C18: which failures an xor catches, and what the handler sees in %last_error% / :error:, against the model's
+\* error descriptors.  Judged on the run's code when both sides end in success or in a catchable error (or when the
+\* model says the run must die of an uncatchable one), and on the arguments of the requests issued.
+InvC18 ==
+    IsRun =>
+        LET e == Last  m == ModelOutcome(pre, e) IN
+        (~m.unsup /\ e.out.died = "" /\ "xor" \in aux.feats) =>
+            /\ ((Class(m.code) \in {"ok", "catch"} /\ Class(e.out.code) \in {"ok", "catch"}) => Report("C18", m.code = e.out.code))
+            /\ ((Class(m.code) = "uncatch" /\ Class(e.out.code) \in {"ok", "catch"}) => Report("C18", FALSE))
+            /\ ((m.code = e.out.code /\ ReturnsNewData(e.out.code)) => Report("C18", ReqKeys(m.reqs) = ReqKeys(e.out.reqs)))
+
 InvConf ==
     IsRun =>
         LET e == Last
